@@ -101,7 +101,9 @@ class DataFrameSchema(_DataFrameSchema[pd.DataFrame]):
         # the benefits of separating the schema spec from the backend
         # implementation comes in.
 
-        if hasattr(check_obj, "dask"):
+        # (looked up on the class: a column or an index label named "dask" is
+        # an attribute of a pandas object as well)
+        if hasattr(type(check_obj), "dask"):
             # special case for dask dataframes
             # pylint: disable=unused-import
             from pandera.accessors import dask_accessor
